@@ -988,6 +988,26 @@ where
             *self.writer.cc_upload_waker.lock().unwrap() = Some(cx.waker().clone());
             #[cfg(rustdds_verif)]
             crate::verif::sched::yp("w2");
+            // The Writer may have made room in the queue between the failed try_send
+            // above and the moment the waker was stored. In that case nobody is going to
+            // wake us up, so we must try again now that the waker is in place.
+            let wc = match self.writer.cc_upload.try_send(wc) {
+              Ok(()) => {
+                self.writer.refresh_manual_liveliness();
+                return Poll::Ready(Ok(SampleIdentity {
+                  writer_guid: self.writer.my_guid,
+                  sequence_number: self.sequence_number,
+                }));
+              }
+              Err(TrySendError::Full(wc)) => wc,
+              Err(other_err) => {
+                self.writer.undo_sequence_number();
+                return Poll::Ready(Err(WriteError::Poisoned {
+                  reason: format!("{other_err}"),
+                  data: self.sample.take().unwrap(),
+                }));
+              }
+            };
             if Instant::now() < self.timeout_instant {
               // Put our command back
               self.writer_command = Some(wc);
@@ -1095,6 +1115,11 @@ where
           _ => unreachable!(),
         };
 
+        // In case the queue is full: the Writer wakes this waker whenever it takes a
+        // command from the queue. It has to be in place before we try to send, or a
+        // command taken in between would go unnoticed.
+        *writer.cc_upload_waker.lock().unwrap() = Some(cx.waker().clone());
+
         match writer
           .cc_upload
           .try_send(WriterCommand::WaitForAcknowledgments {
@@ -1104,7 +1129,9 @@ where
             *self = AsyncWaitForAcknowledgments::Waiting { ack_wait_receiver };
             #[cfg(rustdds_verif)]
             crate::verif::sched::yp("a1");
-            Poll::Pending
+            // Poll the receiver now: this is what registers our waker. Just returning
+            // Pending here would leave the task without anyone to wake it up.
+            self.poll(cx)
           }
 
           Err(TrySendError::Full(WriterCommand::WaitForAcknowledgments {
